@@ -179,8 +179,12 @@ fn check_pair(n: usize, a: &[f32], b: &[f32], off_a: usize, off_b: usize, st: &m
         (Metric::DotProduct, r_d, reported::<DotProduct>(ub, ua, n)),
     ] {
         within(m, n, b, a, bwd, "swapped arguments")?;
-        if fwd.to_bits() == bwd.to_bits() {
+        // "symmetric in its arguments": every operation of the four definitions commutes in IEEE arithmetic, so the two
+        // orders give the same float, not two floats within tolerance of each other
+        if fwd.to_bits() == bwd.to_bits() || (fwd.is_nan() && bwd.is_nan()) {
             st.bump("symmetric_bitwise");
+        } else {
+            return Err(format!("{m:?}: n={n}: d(a,b) = {fwd:e} but d(b,a) = {bwd:e} (bit patterns {:#x} / {:#x})", fwd.to_bits(), bwd.to_bits()));
         }
     }
     // identity
@@ -303,6 +307,15 @@ fn c11_end_to_end(report: &mut Report, seed: u64) -> Result<(), Fail> {
             crate::with_metric!(metric, D => e2e_one::<D>(metric, *dims, &items, &q))?;
             report.acc.evaluations += 1;
             report.acc.nontrivial_hashes.insert(0x0C11_E2E0_0000_0000 | ((k as u64) << 8) | metric as u64);
+            // the same index scaled exactly by 2^-30 and by 2^20: what the reader reports (not only what the kernels
+            // compute) is the definition for tiny and large magnitudes too
+            for (j, scale) in [2f32.powi(-30), 2f32.powi(20)].into_iter().enumerate() {
+                let scaled: BTreeMap<u32, Vec<f32>> = items.iter().map(|(id, v)| (*id, v.iter().map(|x| x * scale).collect())).collect();
+                let qs: Vec<f32> = q.iter().map(|x| x * scale).collect();
+                crate::with_metric!(metric, D => e2e_one::<D>(metric, *dims, &scaled, &qs))?;
+                report.acc.evaluations += 1;
+                report.acc.nontrivial_hashes.insert(0x0C11_E2E1_0000_0000 | ((j as u64) << 16) | ((k as u64) << 8) | metric as u64);
+            }
         }
     }
     Ok(())
